@@ -158,6 +158,7 @@ class _RedisConsumer(ConsumerT):
                     offset - self.PREFETCH_AMOUNT,  # range from the end of the queue
                     offset - 1,
                 )
+                names.reverse()  # the oldest message is at the very end of the queue
                 offset -= self.PREFETCH_AMOUNT  # reversed offset
 
         elif not force_delayed:
